@@ -41,7 +41,13 @@ def payloads(c: str, ex: str) -> dict:
 SLOTS = ["info.title", "info.description", "info.version", "tag", "operationId", "op.summary", "op.description", "path.literal", "param.query.name", "param.header.name", "param.cookie.name", "param.path.name",
          "param.description", "media_type.request", "schema.key", "schema.title", "schema.description", "schema.example", "property.name", "property.description", "property.example", "property.title", "enum.value", "enum.value.first_alpha",
          "const.value", "default.string", "default.any", "default.enum_ref", "response.description", "inline.title", "requestBody.description", "enum.description", "param.example", "default.query_param",
-         "property.name.ref", "property.name.wrapped_ref", "property.name.model_ref", "param.query.name.ref", "param.header.name.ref", "property.name.array", "property.name.union"]
+         "property.name.ref", "property.name.wrapped_ref", "property.name.model_ref", "param.query.name.ref", "param.header.name.ref", "property.name.array", "property.name.union",
+         # routes: the same text slot reached through another construction; keyed by the slot they lead to (ROUTES)
+         "property.name.const", "default.string.allof_override", "default.string.allof_inherited", "property.description.allof", "enum.value.allof_narrowed"]
+
+# slot spelled in the violation key for a route (same mechanism, same key; the route is named in the witness)
+ROUTES = {"property.name.const": "property.name", "default.string.allof_override": "default.string", "default.string.allof_inherited": "default.string", "property.description.allof": "property.description",
+          "enum.value.allof_narrowed": "enum.value"}
 
 RUNTIME_SLOTS = {"property.name.ref", "property.name.wrapped_ref", "property.name.model_ref", "param.query.name.ref", "param.header.name.ref", "property.name.array", "property.name.union","property.name", "param.query.name", "param.header.name", "param.cookie.name", "enum.value", "enum.value.first_alpha", "default.string", "path.literal", "const.value", "default.any", "default.query_param"}
 
@@ -162,6 +168,22 @@ def inject(d: dict, slot: str, text: str):
         S["Thing"]["properties"]["fixed"] = {"const": text}
     elif slot == "default.string":
         S["Thing"]["properties"]["note"]["default"] = text
+    elif slot == "property.name.const":
+        S["Thing"]["properties"][text] = {"const": "k0"}
+    elif slot == "default.string.allof_override":
+        # the default is declared by a later allOf member that re-declares an inherited property
+        S["Thing"]["properties"]["note"].pop("default", None)
+        S["Derived"] = {"allOf": [{"$ref": "#/components/schemas/Thing"}, {"type": "object", "properties": {"note": {"type": "string", "default": text}}}]}
+    elif slot == "default.string.allof_inherited":
+        S["Thing"]["properties"]["note"]["default"] = text
+        S["Derived"] = {"allOf": [{"$ref": "#/components/schemas/Thing"}, {"type": "object", "properties": {"note": {"type": "string", "description": "again"}, "extra": {"type": "integer"}}}]}
+    elif slot == "property.description.allof":
+        S["Derived"] = {"allOf": [{"$ref": "#/components/schemas/Thing"}, {"type": "object", "properties": {"name": {"type": "string", "description": text}}}]}
+    elif slot == "enum.value.allof_narrowed":
+        if ek != "Color":
+            return None
+        S[ek]["enum"] = ["red", "green", "0" + text]
+        S["Derived"] = {"allOf": [{"$ref": "#/components/schemas/Thing"}, {"type": "object", "properties": {"kind": {"type": "string", "enum": ["red", "0" + text]}}}]}
     elif slot == "default.any":
         S["Thing"]["properties"]["anyd"]["default"] = text
     elif slot == "default.enum_ref":
@@ -297,7 +319,7 @@ def main() -> int:
             slot, pay = combo[0]
             for eff, what, wit in problems:
                 single_bad.add((slot, pay))
-                vd.violation(f"{eff}:{slot}:{pay}", what, wit)
+                vd.violation(f"{eff}:{ROUTES.get(slot, slot)}:{pay}", what + (f" [route {slot}]" if slot in ROUTES else ""), wit)
         else:
             multi_problems.append((combo, problems))
         ev.seen(("C05", combo if len(combo) == 1 else ("multi", len(combo)), cfg_i))
@@ -407,7 +429,18 @@ def judge_case(ev, j, res, cj, cres, combo, canaries):
     for a, x in actions_results(res):
         if x.get("action_exc"):
             continue
-        if a["a"] == "roundtrip":
+        if a["a"] == "roundtrip" and a["x"].get("expect_reject") and any(e_ in ("exception", "value_altered") for e_, _, _ in out):
+            ev.count("const_rejection_probe_skipped(the name is already not carried faithfully)")
+        elif a["a"] == "roundtrip" and a["x"].get("expect_reject"):
+            # a value that contradicts a const must be refused with ValueError whose text names the property character for character
+            ev.count("const_rejections_probed")
+            if not x.get("exc"):
+                out.append(("wrong_const_accepted", f"{a['cls']}.from_dict accepted {a['value']!r} for const property {a['x']['prop']!r}", dict(w, value=a["value"])))
+            elif x["exc"]["type"] != "ValueError":
+                out.append(("exception", f"{a['cls']}.from_dict refusing a wrong const raised {x['exc']['type']}: {x['exc']['msg'][:120]} instead of ValueError", dict(w, value=a["value"])))
+            elif a["x"]["prop"] not in (x["exc"].get("msg_full") or x["exc"]["msg"]):
+                out.append(("value_altered", f"{a['cls']}.from_dict: the ValueError for const property {a['x']['prop']!r} spells the name differently: {x['exc']['msg'][:160]!r}", dict(w, value=a["value"])))
+        elif a["a"] == "roundtrip":
             ev.count("behavioural_roundtrips")
             if x.get("exc"):
                 out.append(("exception", f"{a['cls']}.{x['stage']}: {x['exc']['type']}: {x['exc']['msg'][:120]}", dict(w, value=a["value"])))
